@@ -71,6 +71,7 @@ type CheckOptions struct {
 	Workers  int
 	DumpDir  string
 	Verbose  bool
+	OutDir   string // where evidence/ and replay/ are written (default VerifDir)
 }
 
 type oblReport struct {
@@ -164,7 +165,10 @@ func RunCheck(prop string, opt CheckOptions) *CheckResult {
 		pc.Level = "proof"
 	}
 	e, err := Load(Config{RepoDir: opt.RepoDir, Pkgs: pc.Packages, MirrorDir: filepath.Join(opt.VerifDir, "contracts"), StdlibDir: filepath.Join(opt.VerifDir, "stdlib")})
-	replayDir := filepath.Join(opt.VerifDir, "replay", prop)
+	if opt.OutDir == "" {
+		opt.OutDir = opt.VerifDir
+	}
+	replayDir := filepath.Join(opt.OutDir, "replay", prop)
 	os.MkdirAll(replayDir, 0o755)
 	var reports []oblReport
 	var failed []*Verdict
@@ -342,8 +346,10 @@ func RunCheck(prop string, opt CheckOptions) *CheckResult {
 		os.WriteFile(fn, b, 0o644)
 		return fn
 	}
+	nKF := 0
 	for _, v := range failed {
 		if k := kfByObl[v.Obl.Name]; k != nil {
+			nKF++
 			if !printedKF[k.ID] {
 				printedKF[k.ID] = true
 				say("KNOWN-FINDING: property=%s %s [%s]", prop, k.What, k.ID)
@@ -402,7 +408,8 @@ func RunCheck(prop string, opt CheckOptions) *CheckResult {
 	}
 	sort.Strings(srcs)
 	cov := map[string]any{
-		"obligations":              nObl + len(reachFails),
+		"obligations":              nObl + len(reachFails) - nKF, // obligations explained by a listed known finding are reported under known_findings, not counted here
+		"known_finding_obligations": nKF,
 		"discharged":               nDis,
 		"checker_cmd":              fmt.Sprintf("/verif/bin/govc check %s %s  (VC generation over go/ssa of %s; solvers: %s; %v per query)", prop, opt.Tier, strings.Join(pc.Packages, ","), strings.Join(AvailableSolvers(), ","), opt.Timeout),
 		"trusted_base":             tb,
@@ -432,9 +439,9 @@ func RunCheck(prop string, opt CheckOptions) *CheckResult {
 	}
 	ev := &Evidence{PropertyID: prop, Tier: opt.Tier, Seed: opt.Seed, Level: pc.Level, Coverage: cov, Assumptions: append(append([]string{}, pc.Assume...), tb...),
 		WallS: round2(time.Since(start).Seconds()), Violations: violations}
-	os.MkdirAll(filepath.Join(opt.VerifDir, "evidence"), 0o755)
+	os.MkdirAll(filepath.Join(opt.OutDir, "evidence"), 0o755)
 	b, _ := json.MarshalIndent(ev, "", " ")
-	if err := os.WriteFile(filepath.Join(opt.VerifDir, "evidence", prop+".json"), b, 0o644); err != nil {
+	if err := os.WriteFile(filepath.Join(opt.OutDir, "evidence", prop+".json"), b, 0o644); err != nil {
 		return engineError("cannot write evidence: %v", err)
 	}
 	if opt.Verbose {
@@ -444,7 +451,7 @@ func RunCheck(prop string, opt CheckOptions) *CheckResult {
 			}
 		}
 	}
-	fmt.Printf("property %s (%s): %d obligations, %d discharged, %d violations, %.1fs\n", prop, opt.Tier, nObl+len(reachFails), nDis, violations, time.Since(start).Seconds())
+	fmt.Printf("property %s (%s): %d obligations, %d discharged, %d known-finding, %d violations, %.1fs\n", prop, opt.Tier, nObl+len(reachFails)-nKF, nDis, nKF, violations, time.Since(start).Seconds())
 	if violations > 0 {
 		res.ExitCode = 1
 	}
